@@ -191,6 +191,8 @@ func partC04H(a *hcli.Args, rep *report.Report, univName string, u *schema.Unive
 				}
 				st := x.Response.StatusCode
 				switch {
+				case mustRefuse && len(w.calls) > 0:
+					failq("malformed-reached-resource", r, m, what, fmt.Sprintf("status %d; resource code ran for a request the reference parser rejects", st), mraw)
 				case st >= 500 && bytes.Contains(x.Body, []byte("unscripted mock method")):
 					sq.Class("ok:routed-to-another-method") // the mutated request names another registered method: its stub has no scripted answer
 				case st >= 500:
@@ -385,6 +387,36 @@ func partC04H(a *hcli.Args, rep *report.Report, univName string, u *schema.Unive
 							for _, s2 := range short {
 								send("path-key-pair-replaced", joinRaw(verb+" "+mkTarget(build(map[int]string{keyPos[x]: s1, keyPos[y]: s2}), query)+" "+proto, headers, body), false)
 							}
+						}
+					}
+				}
+			}
+			// (b") text after a complete compound value - a complex key in a key position, a list or record in a
+			// declared parameter - is not a ROR2 value any more (the reference parser refuses it): refused, never routed
+			{
+				trailers := []string{"x", "()", ",(k:1)", "%20", "''"}
+				segs := strings.Split(strings.TrimPrefix(path, "/"), "/")
+				for i, sg := range segs {
+					if !strings.HasPrefix(sg, "(") {
+						continue
+					}
+					for _, tr := range trailers {
+						out := append([]string{}, segs...)
+						out[i] = sg + tr
+						send("path-key-trailing-text", joinRaw(verb+" "+mkTarget("/"+strings.Join(out, "/"), query)+" "+proto, headers, body), true)
+					}
+				}
+				if query != "" {
+					kvs := strings.Split(query, "&")
+					for i, kv := range kvs {
+						j := strings.Index(kv, "=")
+						if j <= 0 || !declared[kv[:j]] || !(strings.HasPrefix(kv[j+1:], "(") || strings.HasPrefix(kv[j+1:], "List(")) {
+							continue
+						}
+						for _, tr := range trailers {
+							out := append([]string{}, kvs...)
+							out[i] = kv + tr
+							send("query-value-trailing-text", joinRaw(verb+" "+mkTarget(path, strings.Join(out, "&"))+" "+proto, headers, body), true)
 						}
 					}
 				}
